@@ -88,6 +88,17 @@ def checkStatus (pairs : List (String × String)) (id : String) : String :=
 def hpcIsComplete (pairs : List (String × String)) (id : String) : Bool :=
   completeStatuses.contains (checkStatus pairs id)
 
+/-- `check_status` when the status query itself may fail (`queryOk = false`: squeue failed through all
+    retries, `check_statuses()` raised ExecutionError).  If the collector swallowed the failure it would
+    answer from an empty table — every id would read as the default. -/
+def checkStatusQ (queryOk : Bool) (pairs : List (String × String)) (id : String) : Except Err String :=
+  if queryOk then .ok (checkStatus pairs id)
+  else if collectorPropagatesQueryFailure then .error .execError
+  else .ok (checkStatus [] id)
+
+def hpcIsCompleteQ (queryOk : Bool) (pairs : List (String × String)) (id : String) : Except Err Bool :=
+  (checkStatusQ queryOk pairs id).map (completeStatuses.contains ·)
+
 /-! ### sbatch response -/
 
 def isAsciiDigit (c : Char) : Bool := '0' ≤ c && c ≤ '9'
